@@ -230,6 +230,58 @@ Proof.
     + apply Qc_is_canon. vm_compute. reflexivity.
 Qed.
 
+(** Non-vacuity of the modal hypotheses: a one-coefficient / one-node instance
+    (to_nodal, to_modal, clip = identity, laplacian = multiplication by -2,
+    div(x,y) = x, curl(x,y) = b x - a y) on which every hypothesis of
+    [C04_modal] holds with non-zero data. *)
+Section TrivialOps.
+  Context {F : Type} {o : Ops F} {Fc : FieldC o}.
+  Add Field FFt : (field_c : FieldTh o).
+  Definition tI (x : unit -> F) (w : unit) : F := x tt.
+  Definition tD (x y : unit -> F) (w : unit) : F := x tt.
+  Definition tC (a b : F) (x y : unit -> F) (w : unit) : F := b * x tt - a * y tt.
+  Definition tL (lam : F) (x : unit -> F) (w : unit) : F := lam * x tt.
+  Lemma tI_lin : Thm.PrimEq.linear tI.
+  Proof. split; [intros x y H b; apply H | intros; unfold tI; ring]. Qed.
+  Lemma tL_lin lam : Thm.PrimEq.linear (tL lam).
+  Proof. split; [intros x y H b; unfold tL; now rewrite H | intros; unfold tL; ring]. Qed.
+  Lemma tD_lin : Thm.PrimEq.linear2 tD.
+  Proof. split; [intros x1 y1 x2 y2 H1 H2 b; apply H1 | intros; unfold tD; ring]. Qed.
+  Lemma tC_lin a b : Thm.PrimEq.linear2 (tC a b).
+  Proof. split; [intros x1 y1 x2 y2 H1 H2 w; unfold tC; now rewrite H1, H2 | intros; unfold tC; ring]. Qed.
+End TrivialOps.
+
+Definition ex_colm : @NCol Qc :=
+  mkNCol (q3 [3#20; -(3#28); 1#2]%Q) (n_v ex_col) (n_vort ex_col) (n_div ex_col) (n_temp ex_col)
+         (n_gx ex_col) (n_gy ex_col) (n_sec2 ex_col) (n_f ex_col).
+Example C04_modal_hyps_satisfiable :
+  let X := fun _ : unit => ex_colm in
+  let dv := fun (k : nat) (_ : unit) => n_div ex_colm k in
+  let lnps := fun _ : unit => Q2Qc (-(1#15)) in
+  let onem := fun _ : unit => Q2Qc 0 in
+  let lap := tL (Q2Qc (-(2#1))) in
+  let curlc := tC (n_gx ex_colm * n_sec2 ex_colm) (n_gy ex_colm * n_sec2 ex_colm) in
+  Thm.PrimEq.linear (@tI Qc) /\ Thm.PrimEq.linear2 (@tD Qc) /\ Thm.PrimEq.linear2 curlc /\ Thm.PrimEq.linear lap /\
+  (forall p k, n_div (X p) k = tI (dv k) p) /\
+  (forall s w, tI (tI (tI (dv s))) w = dv s w) /\
+  (forall r w, (r < 3)%nat ->
+     tI (tD (tI (fun p => n_u (X p) r * n_sec2 (X p))) (tI (fun p => n_v (X p) r * n_sec2 (X p)))) w
+     = tI (tI (fun p => n_div (X p) r)) w) /\
+  (forall w, tI (tD (tI (fun p => n_gx (X p) * n_sec2 (X p))) (tI (fun p => n_gy (X p) * n_sec2 (X p)))) w = lap lnps w) /\
+  (forall w, tI (curlc (tI (fun p => n_gx (X p) * n_sec2 (X p))) (tI (fun p => n_gy (X p) * n_sec2 (X p)))) w = 0) /\
+  (forall w, lap onem w = 0) /\ lap lnps tt <> 0.
+Proof.
+  cbv zeta.
+  split; [apply tI_lin|]. split; [apply tD_lin|]. split; [apply tC_lin|]. split; [apply tL_lin|].
+  split; [reflexivity|]. split; [reflexivity|].
+  split; [|split; [|split; [|split]]].
+  - intros r w Hr. destruct r as [|[|[|r]]]; [| | |lia]; apply Qc_is_canon; vm_compute; reflexivity.
+  - intros w. apply Qc_is_canon. vm_compute. reflexivity.
+  - intros w. apply Qc_is_canon. vm_compute. reflexivity.
+  - intros w. apply Qc_is_canon. vm_compute. reflexivity.
+  - intro H. vm_compute in H. discriminate H.
+Qed.
+
 (** The cloud-moist class refutes the invariance: with non-zero condensate the
     effective pressure-gradient vector depends on the split (witness over Qc). *)
 Theorem C04_tref_split_cloud_refuted :
@@ -278,5 +330,6 @@ Print Assumptions C04_temperature_modal_invariance.
 Print Assumptions C04_divergence_invariance.
 Print Assumptions C04_vorticity_invariance.
 Print Assumptions C04_hyps_satisfiable.
+Print Assumptions C04_modal_hyps_satisfiable.
 Print Assumptions C04_tref_split_cloud_refuted.
 Print Assumptions C04_tref_split_invariance_R.
